@@ -112,6 +112,20 @@ func (g *vfGen) genC12() {
 			g.emit(vfOp("decl", "xml", []byte(l), []byte(xdoc), len(lead)+len(xd)+2))
 		}
 	}
+	// declarations behind a prologue longer than the default limit: examined with no limit or a larger one
+	for i := 0; i < g.pick(30, 600); i++ {
+		l := g.label()
+		pad := strings.Repeat("long comment ", 260+g.intn(200))
+		hdoc := "<html><!-- " + pad + "--><head><meta charset=\"" + l + "\"></head><body>caf\xe9</body></html>"
+		pdoc := "<html><head><script>var s='<meta charset=fake5>';" + strings.Repeat("x=1;", 900) + "</script><meta http-equiv=\"Content-Type\" content=\"text/html; charset=" + l + "\"></head>caf\xe9"
+		for _, lim := range []int{0, 16384} {
+			g.emit(vfOp("decl", "meta", []byte(l), []byte(hdoc), lim))
+			g.emit(vfOp("decl", "pragma", []byte(l), []byte(pdoc), lim))
+		}
+		g.emit(vfOp("walk", []byte(hdoc), 0))
+		g.emit(vfOp("walk", []byte(hdoc), 3072))
+		g.emit(vfOp("walk", []byte(pdoc), 8000))
+	}
 	// directed: duplicated attributes (only the first counts), several metas, documents whose first XML token is
 	// not a declaration, declarations that end right after `encoding=`
 	for i := 0; i < g.pick(60, 2000); i++ {
